@@ -27,7 +27,7 @@ CHECK = {
         "volumes the oracle scan does not find (thinner than the 17^3/31^3 lattice and not delimited by "
         "axis-aligned/centred surfaces of their own universe) get no representative",
     ],
-    "bounds": {"zoo_added": "g6 and the rectangular arrays 5x2x1, 2x5x1, 1x2x6 of problems/geo_zoo_arrays.hh",
+    "bounds": {"zoo_added": "g6, g7 (x- / y-aligned cylinders cx, cy, cxc, cyc with simple safety; cones kx, ky) and the rectangular arrays 5x2x1, 2x5x1, 1x2x6 of problems/geo_zoo_arrays.hh (2x5x1 and 1x2x6: grid origin (-1.5, 0.25, -2), alternating cell widths w, 1.5 w)",
                "quick": {"lattice": 5, "directions": 38, "sphere_points": 64, "scan_lattice": 17,
                          "foot_points_per_face": 1, "deltas": [0.003, 0.02]},
                "thorough": {"lattice": 9, "directions": 62, "sphere_points": 200, "scan_lattice": 31,
